@@ -238,6 +238,12 @@ class Repo(_Keep):
                 ent = module.names.get(expr.value.id)
                 if ent is None:
                     return None
+                if ent[0] == "class":
+                    # Outer.Inner: a class nested in a class of this module
+                    try:
+                        return self.klass(module, expr.value.id + "." + expr.attr)
+                    except Exception:
+                        return None
                 if ent[0] == "from":
                     mn = ent[1] + "." + ent[2]
                     if self.has_module(mn):
